@@ -592,9 +592,13 @@ def comparator_findings(F, f):
             continue
         for a in x["args"]:
             c = peel(a)
-            if c.get("k") != "Closure":
+            if c.get("k") == "Path" and c.get("res") == "def" and c.get("def") in F.fns:
+                # a named comparator (`sort_by(compare_items)`): its body is the comparator
+                body = peel(F.fns[c["def"]]["hir"].get("body") or F.fns[c["def"]]["hir"])
+            elif c.get("k") == "Closure":
+                body = peel(c["body"])
+            else:
                 continue
-            body = peel(c["body"])
             if body.get("k") != "Match":
                 continue
             n += 1
